@@ -67,6 +67,8 @@ val flat_map : ('a1 -> 'a2 list) -> 'a1 list -> 'a2 list
 
 val fold_left : ('a1 -> 'a2 -> 'a1) -> 'a2 list -> 'a1 -> 'a1
 
+val existsb : ('a1 -> bool) -> 'a1 list -> bool
+
 val forallb : ('a1 -> bool) -> 'a1 list -> bool
 
 val combine : 'a1 list -> 'a2 list -> ('a1 * 'a2) list
@@ -716,5 +718,71 @@ val all_ok : 'a1 res list -> 'a1 list option
 val certificate : node list -> nat -> bytes -> bool
 
 val run_ser : sx -> sx
+
+type cell =
+| Cell of bool * n * n * bits * cell list
+
+val stored_hash : n -> bits -> nat -> bytes
+
+val stored_depth : n -> bits -> nat -> n res
+
+val level_repr :
+  (bytes -> bytes) -> bool -> n -> bits -> nat -> nat -> bytes option ->
+  (bytes * n) list -> (bytes * n) res
+
+val own_levels :
+  (bytes -> bytes) -> bool -> n -> bits -> nat -> (nat -> (bytes * n) list
+  res) -> nat -> (bytes * n) res
+
+val hd_at : (bytes -> bytes) -> cell -> nat -> (bytes * n) res
+
+val eMerkle : n
+
+val bytes_to_bits : bytes -> bits
+
+val pruned_cell : bytes -> n -> cell
+
+val cell_mask : cell -> n
+
+val prune :
+  (bytes -> bytes) -> (nat list -> bool) -> nat list -> cell -> cell res
+
+val create_proof : (bytes -> bytes) -> (nat list -> bool) -> cell -> cell res
+
+val read_n : nat -> bits -> (n * bits) option
+
+val read_unary0 : nat -> bits -> nat -> (nat * bits) option
+
+val load_label : nat -> bits -> (bits * bits) option
+
+val cell_bits : cell -> bits
+
+val cell_refs : cell -> cell list
+
+val prove_walk :
+  nat -> cell -> bits -> nat -> nat -> bits -> nat list -> nat list list ->
+  (((nat list list * nat list) * bits) * bits) res
+
+val path_eqb : nat list -> nat list -> bool
+
+val in_paths : nat list list -> nat list -> bool
+
+val bits_eqb : bits -> bits -> bool
+
+val prove_key : (bytes -> bytes) -> cell -> bits -> nat -> cell res
+
+val tree_at : nat -> node list -> nat -> cell option
+
+val index_of : node list -> nat -> nat list -> nat option
+
+val flatten : cell -> nat -> node list
+
+val ser_tree : cell -> sx
+
+val path_of_sx : sx -> nat list
+
+val run_proof : sx -> sx
+
+val run_key : sx -> sx
 
 val run : string -> sx -> sx
